@@ -56,7 +56,10 @@ func genC14(rt *rapid.T) C14Case {
 			if len(c.AdminGroups) > 0 {
 				base = c.AdminGroups[rapid.IntRange(0, len(c.AdminGroups)-1).Draw(rt, "base")]
 			}
-			switch rapid.IntRange(0, 9).Draw(rt, "gkind") {
+			switch rapid.IntRange(0, 10).Draw(rt, "gkind") {
+			case 10: // a group PATH (as some identity providers report them) whose last element is an administrator group, a target id or the ROC-admin name
+				last := []string{base, "t1", "t2", "AetherROCAdmin", "ops"}[rapid.IntRange(0, 4).Draw(rt, "pathlast")]
+				g = []string{"lab/", "/", "contractors/emea/"}[rapid.IntRange(0, 2).Draw(rt, "pathhead")] + last
 			case 9: // one word of an administrator group's name
 				ws := strings.Fields(base)
 				g = ws[rapid.IntRange(0, len(ws)-1).Draw(rt, "word")]
